@@ -9,7 +9,7 @@ lookback) with scipy.integrate — independent of the closed forms.
 import math
 from common import *  # noqa
 from bs_common import *  # noqa
-from hedge_common import gen_market, build_derivative, inject
+from hedge_common import gen_market, build_derivative, inject, tens, OPTION_TYPES
 
 SQ2PI = math.sqrt(2 * math.pi)
 
@@ -28,14 +28,15 @@ def expectation_terminal(payoff, s, t, v, k):
     return float(mp.quad(f, [-12, z0, 12 + abs(w)]))
 
 
-def expectation_pathdep(payoff, s, m0, t, v, k, kink=None):
+def expectation_pathdep(payoff, s, m0, t, v, k, kink=None, mu=None):
     """E payoff(S_T, max(M_0, max_t S_t)) for X_u = mu u + W_u (volatility units), mu = -v/2:
     joint density of (X_T = x, max X = y), y >= max(x,0):
         f(x,y) = 2(2y-x)/(T sqrt(2 pi T)) exp(-(2y-x)^2/(2T)) exp(mu x - mu^2 T/2)
-    (reflection principle + Girsanov) — independent of the closed forms under test."""
+    (reflection principle + Girsanov) — independent of the closed forms under test.
+    `mu` (default -v/2) is only passed by expectation_pathdep_put (the reflected process)."""
     import mpmath as mp
     mp.mp.dps = 15
-    mu = -v / 2.0
+    mu = -v / 2.0 if mu is None else mu
     T = t
     sq = math.sqrt(T)
 
@@ -50,6 +51,52 @@ def expectation_pathdep(payoff, s, m0, t, v, k, kink=None):
         pts.append(kink)
     pts.append(10 * sq + 1)
     return float(mp.quad(inner, pts))
+
+
+def expectation_pathdep_put(kind, s, t, v, k):
+    """expected payoff of the PUT lookback max(K - min S, 0) / the put American binary 1{min S <= K} from log-moneyness s
+    with no history: Y = -log(S/K) starts at -s, has drift +v/2 (volatility units), and min S = K^2 / (K e^{max Y})"""
+    sp = -s
+    if kind == "LookbackOption":
+        return expectation_pathdep(lambda ST, M: max(k - k * k / M, 0.0), sp, sp, t, v, k, kink=(max(sp, 0.0) - sp) / v, mu=v / 2.0)
+    return 1.0 if sp >= 0 else expectation_pathdep(lambda ST, M: 1.0 if M >= k else 0.0, sp, sp, t, v, k, kink=-sp / v, mu=v / 2.0)
+
+
+MODULE_FN = {"EuropeanOption": "european", "EuropeanBinaryOption": "european_binary",
+             "AmericanBinaryOption": "american_binary", "LookbackOption": "lookback"}
+STATE_NAMES = ["log_moneyness", "max_log_moneyness", "time_to_maturity", "volatility"]
+
+
+def derivative_state(torch, spot, vol, K, dt):
+    """log moneyness, running-maximum log moneyness, time to maturity and volatility at every (path, step) of a spot
+    tensor, computed here from their definitions (not through the derivative's methods)"""
+    T = spot.size(1)
+    t = torch.tensor([(T - 1 - j) * dt for j in range(T)], dtype=torch.float64).to(spot.dtype)
+    return {"log_moneyness": (spot / K).log(), "max_log_moneyness": (spot.cummax(dim=1).values / K).log(),
+            "time_to_maturity": t.unsqueeze(0).expand_as(spot), "volatility": vol}
+
+
+def functional_at(torch, option, what, state, K, call):
+    """the functional form bs_<option>_<what> at a state (tensors broadcast by the functional form itself)"""
+    return call_bs(torch, MODULE_FN[option] + "_" + what, state["log_moneyness"], state["time_to_maturity"], state["volatility"],
+                   K, state["max_log_moneyness"], call)
+
+
+def compare_grid(ctx, got, exp, valid, case, key, what, tol=(1e-9, 1e-11)):
+    """got == exp at every valid (path, step); one failing input per call"""
+    if tuple(got.shape) != tuple(exp.shape):
+        ctx.fail(what + " (shape)", case, key=key + ":shape", detail={"module": list(got.shape), "functional": list(exp.shape)})
+        return False
+    gl, el, vl = got.detach().reshape(-1).tolist(), exp.detach().reshape(-1).tolist(), valid.reshape(-1).tolist()
+    for i, (a, b, ok) in enumerate(zip(gl, el, vl)):
+        if ok and not rel_close(a, b, *tol):
+            ctx.fail(what, case | {"element": i}, key=key, detail={"module": a, "functional@state": b})
+            return False
+    return True
+
+
+def rand_rows(g, shape, lo, hi):
+    return [[g.r.uniform(lo, hi) for _ in range(shape[1])] for _ in range(shape[0])]
 
 
 def check(ctx):
@@ -185,9 +232,188 @@ def check(ctx):
         if abs(got - exp) > 2e-6 * max(1.0, k):
             ctx.fail(f"bs_{fn} differs from the numerically integrated expected payoff", case, key=f"bs_{fn}:expectation",
                      detail={"impl": got, "integral": exp})
+    # -------- modules built from a derivative, called the way a user calls them (round 3): the three blocks below evaluate
+    # "uses that derivative's strike, call/put flag and simulated state, and agrees with the functional forms" on
+    #   (a) calls that give SOME inputs explicitly and leave the others to the derivative,
+    #   (b) one underlier / derivative / module reused over several simulations with changed parameters,
+    #   (c) put derivatives of every option type handed to BlackScholes(...) / BS*.from_derivative(...)
+    import pfhedge.nn as pnn
+    import pfhedge.instruments as pin
+
+    def build_module(how, option, d):
+        return BlackScholes(d) if how == "BlackScholes" else getattr(pnn, "BS" + option).from_derivative(d)
+
+    def shaped(N, T, form, lo, hi):
+        sh = {"full": (N, T), "col": (N, 1), "row": (1, T), "scalar": (1, 1)}[form]
+        x = torch.tensor(rand_rows(g, sh, lo, hi), dtype=torch.float64)
+        return x.reshape(()) if form == "scalar" else x
+
+    def extreme(x, form, how):
+        """the minimum / maximum of an (N, T) tensor over the dimensions along which an override of this form is broadcast"""
+        f = torch.amin if how == "min" else torch.amax
+        if form == "col":
+            return f(x, dim=1, keepdim=True)
+        if form == "row":
+            return f(x, dim=0, keepdim=True)
+        return f(x).reshape(()) if form == "scalar" else x
+
+    # (a) partial overrides
+    for _ in range(160 if ctx.tier == "quick" else 1500):
+        mk = gen_market(g, primary=g.choice(["BrownianStock", "HestonStock"]))
+        mk["vol"] = [[x if x > 0 else type(x)(1) / 4 for x in r] for r in mk["vol"]]
+        mk["var"] = [[x * x for x in r] for r in mk["vol"]]
+        option = mk["option"]
+        pd = option in ("LookbackOption", "AmericanBinaryOption")
+        if pd:
+            mk["call"] = True
+        d, u = build_derivative(torch, mk)
+        how = g.choice(["BlackScholes", "from_derivative"])
+        what = g.choice(["price", "price", "price", "delta"])
+        N, T, K = mk["N"], mk["T"], float(mk["strike"])
+        names = [n_ for n_ in STATE_NAMES if pd or n_ != "max_log_moneyness"]
+        given = sorted(g.r.sample(names, g.randint(1, len(names) - 1)))
+        form = "full" if what == "delta" else g.choice(["full", "full", "col", "row", "scalar"])
+        own = derivative_state(torch, tens(torch, mk["spot"]), tens(torch, mk["vol"]), K, float(mk["dt"]))
+        ov = {}
+        if "time_to_maturity" in given:
+            ov["time_to_maturity"] = shaped(N, T, form, 0.01, 5.0)
+        if "volatility" in given:
+            ov["volatility"] = shaped(N, T, form, 0.02, 2.0)
+        if "log_moneyness" in given:
+            if pd and "max_log_moneyness" not in given:      # stay below the derivative's running maximum
+                ov["log_moneyness"] = extreme(own["max_log_moneyness"], form, "min") - shaped(N, T, form, 0.0, 0.5)
+            else:
+                ov["log_moneyness"] = shaped(N, T, form, -1.0, 1.0)
+        if "max_log_moneyness" in given:                      # running maximum >= spot (given or the derivative's)
+            base = ov["log_moneyness"] if "log_moneyness" in given else extreme(own["log_moneyness"], form, "max")
+            ov["max_log_moneyness"] = base + shaped(N, T, form, 0.0, 0.6) if g.chance(0.7) else base.clone()
+        case = {"option": option, "primary": mk["primary"], "call": mk["call"], "strike": rat_str(mk["strike"]), "built": how,
+                "method": what, "given": {k_: v_.tolist() for k_, v_ in ov.items()}, "spot": enc_rat(mk["spot"]),
+                "vol": enc_rat(mk["vol"]), "dt": rat_str(mk["dt"])}
+        ctx.case(case, True, tag="module_partial")
+        ctx.stats[f"partial:{option}:{what}"] += 1
+        ctx.stats["partial:given=" + "+".join(given)] += 1
+        ctx.traces += 1
+        st, mod, _ = call_impl(build_module, how, option, d)
+        if st != "ok":
+            ctx.fail("building the pricing module from a derivative raised", case, key=f"bs_module:{option}:construct:error", detail=mod)
+            continue
+        st, got, mut = call_impl(getattr(mod, what), watch=[("derivative", d)], **ov)
+        if mut:
+            ctx.mutated(f"BSModule.{what}", mut, case)
+        if st != "ok":
+            ctx.fail(f"module.{what}() with some inputs given explicitly raised", case, key=f"bs_module:{option}:partial-override:error", detail=got)
+            continue
+        state = own | ov
+        exp = functional_at(torch, option, what, state, K, mk["call"])
+        valid = torch.broadcast_to((state["time_to_maturity"] > 0) & (state["volatility"] > 0), (N, T))
+        compare_grid(ctx, got, exp, valid, case, f"bs_module:{option}:partial-override:{what}",
+                     f"module.{what}() with some inputs given explicitly differs from the functional form at the given inputs and the "
+                     "derivative's strike, call flag and remaining simulated state")
+    # (b) one underlier, derivative and module over several simulations
+    for _ in range(14 if ctx.tier == "quick" else 150):
+        option = g.choice(OPTION_TYPES)
+        pd = option in ("LookbackOption", "AmericanBinaryOption")
+        call = True if pd else g.chance(0.6)
+        K = g.choice([0.9, 1.0, 1.1, 1.25])
+        primary = g.choice(["BrownianStock", "BrownianStock", "MertonJumpStock", "HestonStock"])
+        dt = g.choice([1 / 250, 1 / 256, 1 / 100])
+        steps = g.choice([3, 5, 10])
+        sigmas = g.r.sample([0.05, 0.1, 0.2, 0.3, 0.45, 0.8], 3)
+        how = g.choice(["BlackScholes", "from_derivative"])
+        what = g.choice(["price", "price", "delta"])
+        if primary == "HestonStock":
+            u = pin.HestonStock(dt=dt, dtype=torch.float64)
+        else:
+            u = getattr(pin, primary)(sigma=sigmas[0], dt=dt, dtype=torch.float64)
+        d = getattr(pin, option)(u, call=call, strike=K, maturity=steps * dt)
+        mod = build_module(how, option, d)
+        n_paths = g.choice([1, 2, 4])
+        for rnd in range(3):
+            if rnd > 0 and g.chance(0.25):
+                n_paths = g.choice([1, 2, 4])
+            if primary != "HestonStock":
+                u.sigma = sigmas[rnd]
+            tseed = g.randint(0, 2 ** 31 - 1)
+            torch.manual_seed(tseed)
+            d.simulate(n_paths=n_paths)
+            spot = u.spot.detach().clone()
+            vol = u.variance.detach().clamp(min=0.0).sqrt() if primary == "HestonStock" else torch.full_like(spot, sigmas[rnd])
+            case = {"option": option, "primary": primary, "call": call, "strike": K, "built": how, "method": what, "dt": dt,
+                    "round": rnd, "sigma_by_round": None if primary == "HestonStock" else sigmas[:rnd + 1], "n_paths": n_paths,
+                    "torch_seed": tseed, "spot": spot.tolist()}
+            ctx.case(case, True, tag="module_reuse")
+            ctx.stats[f"reuse:{primary}"] += 1
+            ctx.traces += 1
+            st, got, mut = call_impl(getattr(mod, what), watch=[("derivative", d)])
+            if mut:
+                ctx.mutated(f"BSModule.{what}", mut, case)
+            if st != "ok":
+                ctx.fail(f"module.{what}() raised after the derivative was simulated again", case, key=f"bs_module:{option}:reuse:error", detail=got)
+                break
+            state = derivative_state(torch, spot, vol, K, dt)
+            exp = functional_at(torch, option, what, state, K, call)
+            valid = (state["time_to_maturity"] > 0) & (state["volatility"] > 0)
+            if not compare_grid(ctx, got, exp, valid, case, f"bs_module:{option}:reuse:stale-state",
+                                f"module.{what}() of a module whose derivative was simulated again (same objects, changed volatility) "
+                                "differs from the functional form at the CURRENT simulated state"):
+                break
+    # (c) puts of every option type
+    put_oracle_done = set()
+    for rnd in range(2 if ctx.tier == "quick" else 12):
+        for option in OPTION_TYPES:
+            for how in ("BlackScholes", "from_derivative"):
+                pd = option in ("LookbackOption", "AmericanBinaryOption")
+                mk = gen_market(g, T=g.choice([3, 4, 5, 8]), primary="BrownianStock")
+                mk["sigma"] = g.choice([type(mk["sigma"])(1, 4), type(mk["sigma"])(1, 2)])
+                mk["vol"] = [[mk["sigma"]] * mk["T"] for _ in range(mk["N"])]
+                mk["var"] = [[x * x for x in r] for r in mk["vol"]]
+                mk["dt"] = g.choice([type(mk["sigma"])(1, 4), type(mk["sigma"])(1, 8)])
+                mk["option"], mk["call"] = option, False
+                d, u = build_derivative(torch, mk)
+                N, T, K = mk["N"], mk["T"], float(mk["strike"])
+                case = {"option": option, "call": False, "strike": rat_str(mk["strike"]), "built": how, "spot": enc_rat(mk["spot"]),
+                        "sigma": rat_str(mk["sigma"]), "dt": rat_str(mk["dt"])}
+                ctx.case(case, True, tag="module_put")
+                ctx.traces += 1
+                st, mod, _ = call_impl(build_module, how, option, d)
+                if st != "ok":
+                    ctx.stats[f"put:{option}:rejected"] += 1
+                    if not pd:      # European and European-binary puts are offered (the functional forms take call=False)
+                        ctx.fail("building the pricing module from a put derivative raised", case, key=f"bs_module:{option}:put:construct:error", detail=mod)
+                    continue
+                ctx.stats[f"put:{option}:built"] += 1
+                flag = getattr(mod, "call", None)
+                if flag is None or bool(flag):
+                    ctx.fail("the pricing module built from a PUT derivative is a call module (the derivative's call/put flag is not used; "
+                             "the construction is not rejected either)", case, key=f"bs_module:{option}:put:call-flag", detail={"module.call": flag, "repr": repr(mod)})
+                with torch.no_grad():
+                    st, got, _ = call_impl(mod.price, watch=[("derivative", d)])
+                if st != "ok":
+                    ctx.fail("the pricing module built from a put derivative raised in price()", case, key=f"bs_module:{option}:put:error", detail=got)
+                    continue
+                state = derivative_state(torch, tens(torch, mk["spot"]), tens(torch, mk["vol"]), K, float(mk["dt"]))
+                if not pd:
+                    exp = functional_at(torch, option, "price", state, K, False)
+                    compare_grid(ctx, got, exp, state["time_to_maturity"] > 0, case, f"bs_module:{option}:put:value",
+                                 "the pricing module built from a put derivative differs from the functional form with call=False")
+                elif option not in put_oracle_done and tuple(got.shape) == (N, T):
+                    # no functional form for these puts: the quoted price at the first step (no history) against the numerically
+                    # integrated expectation of the PUT payoff (once per option type and run: the quadrature takes seconds)
+                    put_oracle_done.add(option)
+                    s0, t0, v0 = float(state["log_moneyness"][0, 0]), float(state["time_to_maturity"][0, 0]), float(mk["sigma"])
+                    try:
+                        exp0 = expectation_pathdep_put(option, s0, t0, v0, K)
+                    except Exception as e:  # noqa
+                        raise InternalError("expectation oracle failed: " + repr(e))
+                    if abs(float(got[0, 0]) - exp0) > 2e-6 * max(1.0, K):
+                        ctx.fail("the price quoted by the module built from a put derivative differs from the numerically integrated expected PUT payoff",
+                                 case | {"s": s0, "t": t0, "v": v0}, key=f"bs_module:{option}:put:value", detail={"module": float(got[0, 0]), "integral": exp0})
     return ctx.finish(
         rule="prices over log-moneyness [-1,1] x t (0,5] x v (0,2] x K (0.1,10], running max >= spot incl. equality and exactly at the strike, "
-             "float64/float32, broadcast shapes; BS modules from derivatives on injected markets; numerical-integration oracle on a subsample; "
+             "float64/float32, broadcast shapes; BS modules from derivatives on injected markets (all inputs from the derivative; a proper subset given explicitly in "
+             "full / column / row / scalar shapes; the same stock, derivative and module over three simulations with changed sigma / paths; put derivatives of "
+             "all four option types through BlackScholes and from_derivative); numerical-integration oracle on a subsample; "
              "every case non-trivial; distinct = sha1 of canonical case",
         explanation="European and European-binary prices: equality with the defining expectation is a theorem (Props/C07). American binary and lookback: "
                     "the expectation identity is NOT proved (no Brownian-motion/reflection principle in Mathlib) — partial; validated numerically by the "
